@@ -187,6 +187,11 @@ func TestCheck(t *testing.T) {
 					probs = append(probs, w.SendParams(st, drv.SinglePrimary(fib))...)
 					if r.Intn(2) == 0 && len(probs) == 0 {
 						probs = append(probs, w.SendElection(st, &spb.Uint128{High: elec.High, Low: elec.Low - 1})...)
+						if elec.Low > 2 && r.Intn(2) == 0 && len(probs) == 0 {
+							// ... and moves to another id that is lower still
+							probs = append(probs, w.SendElection(st, &spb.Uint128{High: elec.High, Low: elec.Low - 2})...)
+							run.Count("standby_moved_between_two_lower_ids", 1)
+						}
 					}
 					if len(probs) == 0 && st.Open {
 						probs = append(probs, w.Disconnect(st, []string{"close", "cancel", "abort"}[r.Intn(3)])...)
@@ -327,10 +332,27 @@ func TestCheck(t *testing.T) {
 		if aState == "gone-after" && len(probs) == 0 {
 			probs = append(probs, w.Disconnect(a, "close")...)
 		}
+		// In half of the scripts B first sends forward references of its own - with the very
+		// ids of the operations A left held - and only then (perhaps) does the superseded A
+		// leave: what B has held must survive both and be answered when the next-hop arrives.
+		nhID := uint64(7)
+		if r.Intn(2) == 0 && len(probs) == 0 && b.Open {
+			nhg2 := &spb.AFTOperation{Op: spb.AFTOperation_ADD, Entry: &spb.AFTOperation_NextHopGroup{NextHopGroup: &aftpb.Afts_NextHopGroupKey{Id: 2, NextHopGroup: &aftpb.Afts_NextHopGroup{NextHop: []*aftpb.Afts_NextHopGroup_NextHopKey{{Index: missingNH, NextHop: &aftpb.Afts_NextHopGroup_NextHop{Weight: gen.U(2)}}}}}}}
+			v4b := &spb.AFTOperation{Op: spb.AFTOperation_ADD, Entry: &spb.AFTOperation_Ipv4{Ipv4: &aftpb.Afts_Ipv4EntryKey{Prefix: "10.1.0.0/16", Ipv4Entry: &aftpb.Afts_Ipv4Entry{NextHopGroup: gen.U(2)}}}}
+			probs = append(probs, w.SendOps(b, []gen.OpSpec{mk(7, ni, nhg2), mk(8, ni, v4b)}, eb)...)
+			probs = append(probs, w.CompareState()...)
+			nhID = 10
+			run.Count("new_primary_holds_operations_with_the_ids_of_dropped_ones", 1)
+			if a.Open && r.Intn(2) == 0 && len(probs) == 0 {
+				probs = append(probs, w.Disconnect(a, []string{"close", "cancel", "abort"}[r.Intn(3)])...)
+				probs = append(probs, w.CompareState()...)
+				run.Count("superseded_session_left_while_the_new_primary_holds_operations", 1)
+			}
+		}
 		// B installs the missing dependency, using operation ids that collide with A's held ones
 		nh := &spb.AFTOperation{Op: spb.AFTOperation_ADD, Entry: &spb.AFTOperation_NextHop{NextHop: &aftpb.Afts_NextHopKey{Index: missingNH, NextHop: &aftpb.Afts_NextHop{IpAddress: gen.S("192.0.2.1")}}}}
 		if len(probs) == 0 {
-			probs = append(probs, w.SendOps(b, []gen.OpSpec{mk(7, ni, nh)}, eb)...)
+			probs = append(probs, w.SendOps(b, []gen.OpSpec{mk(nhID, ni, nh)}, eb)...)
 			probs = append(probs, w.CompareState()...)
 			probs = append(probs, w.QuietOthers(b)...)
 		}
@@ -343,6 +365,9 @@ func TestCheck(t *testing.T) {
 		// B continues with a short random history (held operations of its own, then resolution)
 		if len(probs) == 0 && b.Open && w.Prim == b {
 			g.NextID = 8
+			if nhID == 10 {
+				g.NextID = 11 // 7, 8 and 10 are B's own
+			}
 			for k := 0; k < 4 && len(probs) == 0; k++ {
 				probs = append(probs, w.SendOps(b, g.History(1+r.Intn(4)), eb)...)
 				probs = append(probs, w.CompareState()...)
